@@ -68,6 +68,7 @@ def run(repo, rep, tier):
     _r9_cache_after_commit(repo, rep)
     _r10_reported_file_is_opened_file(repo, rep)
     _r11_cache_key_is_target_namespace(repo, rep)
+    _r12_lexer_terminates(repo, rep)
     mod = repo.module(MOF)
     mc = repo.cls(MOF, 'MOFCompiler')
     actions = [f for n, f in mod.functions.items()
@@ -704,8 +705,9 @@ def _r9_cache_after_commit(repo, rep):
 
     def names(e):
         return {x.id for x in ast.walk(e) if isinstance(x, ast.Name)} - {'p'}
+    from ..inline import Flat
     for f in acts:
-        cfg = CFG(f.node)
+        cfg = CFG(Flat(f).node)
         writes = []        # (stmt, call, names)
         for st in cfg.nodes:
             if not isinstance(st, ast.stmt) or isinstance(
@@ -870,3 +872,68 @@ def _r11_cache_key_is_target_namespace(repo, rep):
                         'connection was changed)' % (x, sorted(keys)))
     if r11.sites < 3:
         raise AnalysisError('C09.R11: only %d sites' % r11.sites)
+
+
+def _r12_lexer_terminates(repo, rep):
+    """C09.R12: the lexer returns for every input.  PLY joins the token
+    patterns (docstrings of the t_* functions, @lex.TOKEN(...) arguments,
+    t_* string constants) into one backtracking regular expression; a token
+    pattern of the shape `(x+|y)*` lets `re` try every way of splitting a
+    long run of x when the rest of the token does not match (a string
+    literal with a missing end quote), so compiling such MOF does not
+    return - instead of raising MOFParseError with line and column."""
+    from ..model import fold_const, NotConst, module_env
+    from .. import rx
+    r12 = rep.rule('C09.R12', 'no lexer token pattern has an unbounded repeat '
+                   'of an unbounded repeat (exponential backtracking)')
+    m = repo.module(MOF)
+    env = module_env(repo, m)
+    pats = []
+    for name, f in sorted(m.functions.items()):
+        if not name.startswith('t_') or name == 't_error':
+            continue
+        node = None
+        for d in f.node.decorator_list:
+            if isinstance(d, ast.Call) and \
+                    (dotted(d.func) or '').endswith('TOKEN') and d.args:
+                node = d.args[0]
+        if node is None:
+            b = f.node.body
+            if b and isinstance(b[0], ast.Expr) and \
+                    isinstance(b[0].value, ast.Constant) and \
+                    isinstance(b[0].value.value, str):
+                node = b[0].value
+        if node is None:
+            raise AnalysisError('lexer rule %s has no pattern' % name)
+        pats.append((name, node, f.node.lineno))
+    for name, node in sorted(m.consts.items()):
+        if name.startswith('t_') and name != 't_ignore' and \
+                not name.startswith('t_ignore_'):
+            pats.append((name, node, getattr(node, 'lineno', 0)))
+    for name, node, line in pats:
+        try:
+            pat = fold_const(node, env)
+        except (NotConst, TypeError, KeyError, ValueError):
+            pat = None
+        if not isinstance(pat, str):
+            r12.undecided.append('%s: pattern not constant' % name)
+            continue
+        r12.sites += 1
+        try:
+            tree = rx.parse(pat)
+        except Exception:                   # pylint: disable=broad-except
+            r12.undecided.append('%s: pattern not parsable' % name)
+            continue
+        amb = rx.ambiguous_repeats(tree)
+        r12.ob(not amb, name, {'pattern': pat[:80]})
+        if amb:
+            rep.finding(r12, name, pat[:80], 'exponential-regex', MOF, line,
+                        'the token pattern repeats %s without bound, and '
+                        'that body is itself an unbounded repeat: on text '
+                        'that almost matches (a long string literal whose '
+                        'closing quote is missing) the lexer tries every '
+                        'way of splitting it and compile_string() does not '
+                        'return' % str(amb[0])[:70])
+    if r12.sites < 9:
+        raise AnalysisError('C09.R12: only %d constant lexer patterns'
+                            % r12.sites)
